@@ -227,3 +227,10 @@ reg("C41", "enum", "transpose/transpose_layout on every two-level layout with 1-
     "every value for xlen 1-8 (10); align_* for 0-64 (300) x powers 0-5 (8); make_hashable on every pair of ~750 nested values.",
     "bounded-exhaustive enumeration of layouts, bit patterns and integers against reference definitions",
     note="Bounded sizes; View transposition trusts pysim.")
+
+reg("C43", "enum", "Every history (readiness pattern of the mocked method of length 4 (6 thorough) x start cycle x call/call_try x argument "
+    "sequence x mock delay x process insertion order) run in a real PysimSimulator with the real TestbenchIO and MethodMock processes; "
+    "a monitor samples the adapter wires every cycle; helper results, execution cycles (exactly one per successful call, none after), "
+    "mock values and effect counts are compared with a reference computed from the history alone.",
+    "bounded-exhaustive enumeration of stimulus histories, each executed on the real simulator processes and compared with a reference",
+    note="Trusts Amaranth's simulator scheduling; histories bounded as listed.")
